@@ -222,5 +222,30 @@ def r19_4(ctx):
     return r
 
 
+RPT = "transports::rtp::ListenerRegistry::register_payload_types"
+
+
+def r19_5(ctx):
+    """a listener's payload-type list is REPLACED on re-registration (re-INVITE / RTX refresh call it with the new
+    list and rely on retired types disappearing): a stale type left on the old listener misdelivers packets of the
+    retired type and makes the type ambiguous (dropped) once another section takes it over."""
+    r = RuleResult("R19.5", "K4", "re-registering a listener's payload types replaces the old list")
+    b = ctx.body(RPT)
+    r.scope.append(RPT)
+    resets = [bi for bi, t, p in core.calls_to(b, suffix("Vec::<T, A>::clear"))
+              if t["a"] and mir.has_field(b.term_operand(t["a"][0]), "payload_types")]
+    resets += [bi for bi, si, st in core.field_writes(b, lambda f: f == "payload_types") if si is not None]
+    rets = [i for i, blk in enumerate(b.blocks) if blk["t"]["k"] == "ret" and i not in b.cleanup]
+    r.need("returns of register_payload_types", len(rets), 1)
+    for rb in rets:
+        if resets and core.must_pass(b, rb, resets):
+            r.ok({"site": b.where(resets[0]), "rule": "payload_types.clear() (or whole-field assignment) on every path"})
+        else:
+            r.violate(RPT, "replace:payload_types", b.where(rb),
+                      "register_payload_types can return without having discarded the listener's previous payload types: "
+                      "retired types keep routing to this listener")
+    return r
+
+
 def run(ctx):
-    return [r19_1(ctx), r19_2(ctx), r19_3(ctx), r19_4(ctx)]
+    return [r19_1(ctx), r19_2(ctx), r19_3(ctx), r19_4(ctx), r19_5(ctx)]
